@@ -146,6 +146,7 @@ type SubchartSpec struct {
 	Values    map[string]interface{} `json:"values,omitempty"`
 	Schema    string                 `json:"schema,omitempty"`
 	Notes     string                 `json:"notes,omitempty"`
+	Sub       []SubchartSpec         `json:"sub,omitempty"` // nested dependencies
 }
 
 type ChartSpec struct {
